@@ -197,6 +197,37 @@ func (cr *concRun) doDelete(s *seqStore, cl int, key string, slot *int32) {
 	cr.add(e)
 }
 
+// sameValueRevSet: read the key and store the SAME bytes again with an explicit revision three above the current one
+// (with check_vhash on this takes the shortcut of checkAndSet: the tree item is updated, no record is appended)
+func (cr *concRun) sameValueRevSet(s *seqStore, cl int, key string) {
+	ki := store.NewKeyInfoFromBytes([]byte(key), 0, false)
+	payload, _, err := s.hs.Get(ki, false)
+	if err != nil || payload == nil || payload.Ver <= 0 {
+		return
+	}
+	body := append([]byte{}, payload.Body...)
+	id, rev := concValID(payload.Body), payload.Ver+3
+	cmem.DBRL.GetData.SubSizeAndCount(payload.CArray.Cap)
+	payload.CArray.Free()
+	e := concEv{key: key, cl: cl, op: 'w', val: id}
+	e.inv = cr.tick()
+	item := &mc.Item{Exptime: int(rev), ReceiveTime: time.Unix(1500000000, 0)}
+	if !item.Alloc(len(body)) {
+		panic("alloc")
+	}
+	copy(item.Body, body)
+	cmem.DBRL.SetData.AddSizeAndCount(item.CArray.Cap)
+	ok, err := s.cl.Set(key, item, false)
+	e.resp = cr.tick()
+	e.ver = rev
+	if err != nil {
+		e.state = "err"
+	} else if !ok {
+		e.state = "rej"
+	}
+	cr.add(e)
+}
+
 func concSet(s *seqStore, key string, body []byte) (bool, error) {
 	item := &mc.Item{ReceiveTime: time.Unix(1500000000, 0)} // old enough for the age test of GC
 	if !item.Alloc(len(body)) {
@@ -264,6 +295,14 @@ func concCase(c *Ctx, r *RNG, id, home, mix string) {
 	cfg.bodyInC = []int64{64, 4096}[r.Intn(2)]
 	cfg.bodyMax = 1024
 	cfg.listKey = 256
+	// c05 variant "vhrace" (check_vhash on): a same-value set with an explicit revision takes the shortcut of checkAndSet
+	// (tree item rewritten at the position read before, no record appended); it is held inside that shortcut while a
+	// whole pass relocates the key's record and removes the source file
+	vhRace := mix == "c05" && r.Fork(77).Chance(25)
+	// variant "vhset": check_vhash on and the pass is held on a key (between newest-check and repoint) while the client's
+	// write of that key is a same-value set with an explicit revision (tree item updated, nothing appended)
+	vhSet := mix == "c05" && !vhRace && r.Fork(78).Chance(25)
+	cfg.checkVHash = vhRace || vhSet
 	s := &seqStore{cfg: cfg}
 	curStore = s
 	cr := &concRun{parked: make(chan struct{}), release: make(chan struct{})}
@@ -407,6 +446,7 @@ func concCase(c *Ctx, r *RNG, id, home, mix string) {
 	}()
 
 	var gcDone chan struct{}
+	var vhDone chan struct{}
 	if mix == "c05" {
 		head := s.hs.VerifHead(0)
 		begin, end := 0, 0
@@ -429,8 +469,30 @@ func concCase(c *Ctx, r *RNG, id, home, mix string) {
 			}
 			c.count("c05.targeted." + cr.parkPoint)
 		}
+		vhDone = make(chan struct{})
+		if vhRace && len(cold) > 0 {
+			c.count("c05.vhrace")
+			cr.parkKey, cr.parkPoint = cold[0], "bucket.cas.samevhash"
+			begin, end = 0, head-1
+			nclients = 0
+			go func() {
+				defer close(vhDone)
+				cr.sameValueRevSet(s, 98, cold[0])
+			}()
+			select {
+			case <-cr.parked:
+				c.count("c05.vhrace.client-held-in-shortcut")
+			case <-vhDone:
+			case <-time.After(3 * time.Second):
+			}
+		} else {
+			close(vhDone)
+		}
 		gcDone = make(chan struct{})
 		merge := r.Chance(30)
+		if vhRace {
+			merge = false
+		}
 		c.line("gcstart begin=%d end=%d merge=%v park=%s at=%s", begin, end, merge, hx([]byte(cr.parkKey)), cr.parkPoint)
 		go func() {
 			defer close(gcDone)
@@ -444,7 +506,14 @@ func concCase(c *Ctx, r *RNG, id, home, mix string) {
 				}
 			})
 		}()
-		if cr.parkKey != "" {
+		if vhRace {
+			// the pass runs to its end while the client is held; then the client goes on
+			go func() {
+				<-gcDone
+				close(cr.release)
+				<-vhDone
+			}()
+		} else if cr.parkKey != "" {
 			// the controller: once the pass is parked on the key, write it, then let the pass go on
 			go func() {
 				select {
@@ -452,8 +521,13 @@ func concCase(c *Ctx, r *RNG, id, home, mix string) {
 					lr := rand.New(rand.NewSource(1))
 					slot := new(int32)
 					cr.byGID.Store(curGID(), slot)
-					v := newVal()
-					cr.doWrite(s, 99, cr.parkKey, v, concValue(v, lr), slot)
+					if vhSet {
+						cr.sameValueRevSet(s, 99, cr.parkKey)
+						c.count("c05.vhset")
+					} else {
+						v := newVal()
+						cr.doWrite(s, 99, cr.parkKey, v, concValue(v, lr), slot)
+					}
 					close(cr.release)
 				case <-gcDone:
 				}
@@ -498,6 +572,13 @@ func concCase(c *Ctx, r *RNG, id, home, mix string) {
 		case <-gcDone:
 		case <-time.After(20 * time.Second):
 			c.line("fatal => gc pass did not finish")
+		}
+	}
+	if vhDone != nil {
+		select {
+		case <-vhDone:
+		case <-time.After(10 * time.Second):
+			c.line("fatal => the held client did not return")
 		}
 	}
 	atomic.StoreInt32(&stop, 1)
